@@ -265,8 +265,8 @@ PlEn(d, t, lower) ==
        (IF t.f = "t" /\ Len(t.args) = 6 THEN {} ELSE {"shape"})
        \cup (IF ArgIs(t, 1, PrologCatEn(d.cat, lower)) THEN {} ELSE {"cats"})
        \cup (IF Len(t.args) >= 2 /\ IsAtomT(t.args[2]) /\ t.args[2].cp = AttrCP(d.tok, "word") THEN {} ELSE {"words"})
-       \cup (IF ArgIs(t, 3, AttrV(d.tok, "lemma", "")) /\ ArgIs(t, 4, AttrV(d.tok, "pos", "")) /\ ArgIs(t, 5, AttrV(d.tok, "chunk", ""))
-                /\ ArgIs(t, 6, AttrV(d.tok, "entity", "")) THEN {} ELSE {"attrs"})
+       \cup (IF ArgIs(t, 3, AttrV(d.tok, "lemma", "XX")) /\ ArgIs(t, 4, AttrV(d.tok, "pos", "XX")) /\ ArgIs(t, 5, AttrV(d.tok, "chunk", "XX"))
+                /\ ArgIs(t, 6, AttrV(d.tok, "entity", "XX")) THEN {} ELSE {"attrs"})
   ELSE IF d.k = "U" THEN
        (IF t.f = "lx" /\ Len(t.args) = 3 /\ IsTerm(t.args[3]) THEN PlEn(d.kids[1], t.args[3], lower) ELSE {"shape"})
        \cup (IF ArgIs(t, 1, PrologCatEn(d.cat, lower)) /\ ArgIs(t, 2, PrologCatEn(d.kids[1].cat, lower)) THEN {} ELSE {"cats"})
